@@ -163,6 +163,7 @@ def metaApply (s : MetaState) (o : OpLine) : MetaState × String :=
     ({ s with db := dbMarkGarbage s.db s.epoch c ((o.nats? "ids").getD []) (o.get? "red" == some "1") }, "=> K")
   | "inhumecnr" => ({ s with db := dbInhumeContainer s.db c }, "=> K")
   | "delcnr" => ({ s with db := dbDeleteContainer s.db c }, "=> K")
+  | "sync" => ({ s with db := dbSyncCounters s.db }, "=> K")
   | "delete" => ({ s with db := dbDelete s.db c ((o.nats? "ids").getD []) }, "=> K")
   | "revive" =>
     let (db, r) := dbRevive s.db c ((o.nat? "o").getD 0)
